@@ -145,6 +145,7 @@ type Bias struct {
 	Populated   int      // percent chance for a fully pre-populated original / update request
 	Updates     int      // percent chance that a plugin issues updates
 	IgnoreFlags int      // percent chance of ignore-failure on an update
+	NearMiss    int      // percent chance to force two plugins onto sibling items (same family / field, different key / target)
 	MaxPar      int
 }
 
@@ -293,10 +294,84 @@ func GenCase(t *rapid.T, b Bias) Case {
 			forceRelease(t, &c)
 		}
 	}
+	if len(c.Chain) >= 2 && rapid.IntRange(0, 99).Draw(t, "nearmiss") < b.NearMiss {
+		forceNearMiss(t, &c)
+	}
 	if b.MaxPar > 1 {
 		c.Par = rapid.IntRange(1, b.MaxPar).Draw(t, "par")
 	}
 	return c
+}
+
+// forceNearMiss makes two plugins write sibling items that must NOT collide: two keys of
+// one keyed family, the same resource field of two different target containers, two
+// different fields of one target, or (create) a field of the created container through the
+// adjustment and the same field of a third-party container through an update.
+func forceNearMiss(t *rapid.T, c *Case) {
+	i := rapid.IntRange(0, len(c.Chain)-2).Draw(t, "ni")
+	j := rapid.IntRange(i+1, len(c.Chain)-1).Draw(t, "nj")
+	a, b := &c.Chain[i], &c.Chain[j]
+	addOp := func(s *Script, op Op) {
+		if hasOp(s, op.Fam, op.Key) < 0 {
+			s.Ops = append(s.Ops, op)
+		}
+	}
+	addUpd := func(s *Script, target, field string) {
+		for k := range s.Updates {
+			if s.Updates[k].Target == target {
+				s.Updates[k].NoRes = false
+				if !has(s.Updates[k].Fields, field) {
+					s.Updates[k].Fields = append(s.Updates[k].Fields, field)
+				}
+				return
+			}
+		}
+		s.Updates = append(s.Updates, Upd{Target: target, Fields: []string{field}})
+	}
+	mode := rapid.IntRange(0, 3).Draw(t, "nmode")
+	if c.Kind != "create" && mode == 0 {
+		mode = 1
+	}
+	switch mode {
+	case 0: // two keys of one keyed family
+		fam := gen.Pick(t, "nfam", append(append([]string{}, removableFams...), keyedSetFams...))
+		keys := keysOf(fam)
+		k1 := gen.Uniform(t, "nk1", len(keys))
+		k2 := (k1 + 1 + gen.Uniform(t, "nk2", len(keys)-1)) % len(keys)
+		// only if neither plugin already touches the other's key
+		if hasOp(a, fam, keys[k2]) < 0 && hasOp(b, fam, keys[k1]) < 0 {
+			addOp(a, Op{Fam: fam, Key: keys[k1], Act: "set"})
+			addOp(b, Op{Fam: fam, Key: keys[k2], Act: "set"})
+		}
+	case 1: // same field, two different targets
+		f := gen.Pick(t, "nfield", allResFields())
+		tg := append([]string{}, targets...)
+		if c.Kind != "create" {
+			tg = append(tg, "SELF")
+		}
+		t1 := gen.Uniform(t, "nt1", len(tg))
+		t2 := (t1 + 1 + gen.Uniform(t, "nt2", len(tg)-1)) % len(tg)
+		addUpd(a, tg[t1], f)
+		addUpd(b, tg[t2], f)
+	case 2: // two different fields of one target
+		all := allResFields()
+		f1 := gen.Uniform(t, "nf1", len(all))
+		f2 := (f1 + 1 + gen.Uniform(t, "nf2", len(all)-1)) % len(all)
+		tg := append([]string{}, targets...)
+		if c.Kind != "create" {
+			tg = append(tg, "SELF", "SELF")
+		}
+		target := gen.Pick(t, "ntarget", tg)
+		addUpd(a, target, all[f1])
+		addUpd(b, target, all[f2])
+	default: // created container's field via adjustment vs a third-party's via update
+		if c.Kind != "create" {
+			return
+		}
+		f := gen.Pick(t, "nsfield", scalarFams)
+		addOp(a, Op{Fam: f, Act: "set"})
+		addUpd(b, gen.Pick(t, "nstarget", targets), f)
+	}
 }
 
 func hasOp(s *Script, fam, key string) int {
